@@ -118,6 +118,7 @@ pub fn main() -> i32 {
             replay(&args[2], &args[3])
         }
         "selftest" => super::selftest::run(),
+        "exec-frames" => super::sut::exec_frames_child(),
         "gen-fuzz-seeds" => {
             // development aid: golden inputs for the two libFuzzer targets
             let dir = args.get(2).cloned().unwrap_or_else(|| "/verif/seeds".to_string());
